@@ -224,7 +224,7 @@ def _run_property(prop, tier, seed, cfg, sdir, t0):
     bounded_fail = []
     fams_always = list(cfg.get('bounded', []))
     if tier == 'thorough':
-        for fam in replay_run.FAMILIES.get(prop, []):
+        for fam in cfg.get('bounded_thorough', []) + replay_run.FAMILIES.get(prop, []):
             if fam not in fams_always:
                 fams_always.append(fam)
     if fams_always:
